@@ -770,10 +770,7 @@ func (fr *Frame) sliceOp(in *ssa.Slice) {
 		mx = fr.val(in.Max).T
 	}
 	fr.safety("slice", mkAnd(mkApp("<=", "0", lo), mkApp("<=", lo, hi), mkApp("<=", hi, mx), mkApp("<=", mx, cp)), in.Pos())
-	no := off
-	if lo != "0" {
-		no = mkApp("+", off, lo)
-	}
+	no := mkAdd(off, lo)
 	v := Val{K: VSlice, Fs: []Val{vInt(arr), vInt(no), vInt(mkApp("-", hi, lo)), vInt(mkApp("-", mx, lo))}}
 	if lo == "0" {
 		v.Fs[2], v.Fs[3] = vInt(hi), vInt(mx)
